@@ -3,6 +3,7 @@ package main
 import (
 	"verif/sim/core"
 	"verif/sim/ev"
+	"verif/sim/layerc"
 	"verif/sim/layerr"
 )
 
@@ -40,6 +41,14 @@ var compR = map[string]string{
 }
 
 var registry = map[string]check{
+	"C02": {
+		parts: []part{{"compiled", layerc.C02, 16, 160}},
+		level: "exploration", rule: "wip", components: compR,
+	},
+	"C01": {
+		parts: []part{{"compiled", layerc.C01, 16, 160}},
+		level: "exploration", rule: "wip", components: compR,
+	},
 	"C08": {
 		parts:  []part{{"runtime", layerr.C08, 32, 320}},
 		replay: layerr.Replay, level: "exploration",
